@@ -352,7 +352,7 @@ class Ctx:
             fn["_guards"] = g
         return g
 
-    def find_guard(self, key, ops, lhs=(), rhs=(), any_side=(), cond=None):
+    def find_guard(self, key, ops, lhs=(), rhs=(), any_side=(), cond=None, strict_ops=True):
         """Switch blocks of `key` whose condition is a comparison with op in ops (after normalising Not),
         lhs atoms ⊇ lhs, rhs atoms ⊇ rhs (sides may be swapped with the operator mirrored), or, with
         cond=regex, whose rendered condition matches. Returns [(block, true_target, false_target, text)]"""
@@ -379,6 +379,9 @@ class Ctx:
             op, l, r = c
             la, ra = atoms(l), atoms(r)
             for (o2, a1, a2) in ((op, la, ra), (SWAP[op], ra, la)):
+                if strict_ops and not (_ops_ok(a1, lhs) and _ops_ok(a2, rhs)):
+                    # arithmetic on an operand that the rule does not mention (e.g. `+ 1`) changes the comparison
+                    continue
                 if o2 in ops and _has(a1, lhs) and _has(a2, rhs) and _has(a1 | a2, any_side):
                     t_true, t_false = els, am.get("0", els)
                     out.append((bi, t_true, t_false, "%s(%s, %s)" % (op, render(l), render(r))))
@@ -391,7 +394,7 @@ class Ctx:
         return out
 
     def r2(self, rid, fn, ops=(), lhs=(), rhs=(), any_side=(), cond=None, err=None, fail_on=True, sink="ok",
-           bypass=(), desc=None, dominate=True, min_guards=1):
+           bypass=(), desc=None, dominate=True, min_guards=1, strict_ops=True):
         """There is a guard `cmp(op, lhs, rhs)` in fn whose failing edge (taken when the comparison is
         `fail_on`) leads to the error variant `err` and cannot reach the sink, and (dominate=True) every
         path to the sink passes the guard's passing edge or one of the `bypass` conditions' edges.
@@ -403,7 +406,7 @@ class Ctx:
         if key is None:
             return self.lost(rid, "R2", fn, d, "function not found: " + fn)
         f = F.fns[key]
-        gs = self.find_guard(key, ops, lhs, rhs, any_side, cond)
+        gs = self.find_guard(key, ops, lhs, rhs, any_side, cond, strict_ops=strict_ops)
         if sink in ("ok", "return"):
             targets = return_blocks(f)
             dead = error_exit_blocks(f) if sink == "ok" else set()
@@ -566,6 +569,13 @@ def _touches(pl, owner, field):
         if isinstance(p, dict) and p.get("f") == field and (p.get("of") or "").split("::<")[0] == owner:
             return True
     return False
+
+
+def _ops_ok(atomset, required):
+    """Every arithmetic operator atom on this side is named by the rule (no unexpected `+ 1`, `* 2`, ...)."""
+    present = {a for a in atomset if a.startswith("op:") and a not in ("op:Not",)}
+    named = {r for r in required if r.startswith("op:")}
+    return present <= named
 
 
 def _has(atomset, required):
